@@ -4,14 +4,13 @@
    of them beyond a normalised measurement -- which Measurement.get guarantees for every renderable. *)
 From RichModel Require Import Prelude Cells Segments Ratio Frames Layout SpecLayout.
 From RichModel Require Table Wrap SpecTable.
-From RichProofs Require Import CellsP SegmentsP RatioP TableP LayoutP LayoutP2 LayoutP8 LayoutP3 LayoutP4 LayoutP5.
+From RichProofs Require Import CellsP SegmentsP RatioP TableP LayoutP LayoutP2 LayoutP8 LayoutP9 LayoutP3 LayoutP4 LayoutP5.
 From Coq Require Import ZifyBool.
 
 Definition tbl_ok (t : tblspec) : bool :=
   let o := tb_o t in
   nonneg4 (Table.o_pad o)
   && match Table.o_width o with None => true | Some _ => false end
-  && match Table.o_minw o with None => true | Some _ => false end
   && match tb_cols t with [] => false | _ => true end
   && Bool.eqb (Table.o_box o) (match tb_boxc t with Some _ => true | None => false end)
   && forallb col_ok (tb_cols t).
@@ -63,7 +62,7 @@ Theorem table_stream_fits cf t rows ro W :
 Proof.
   intros Hok Hov B. unfold tbl_ok in Hok.
   repeat (apply andb_true_iff in Hok as [Hok ?]).
-  rename H into Hcols, H0 into Hbox, H1 into Hne, H2 into Hminw, H3 into Hwidth. rename Hok into Hpad.
+  rename H into Hcols, H0 into Hbox, H1 into Hne, H2 into Hwidth. rename Hok into Hpad.
   set (cells := table_cols cf t rows). unfold table_stream. fold cells.
   set (cols := table_tcols t cells).
   assert (Hlen : length cols = length (tb_cols t)) by apply table_tcols_length.
@@ -71,12 +70,11 @@ Proof.
     [|split; [apply sfits_nil|left; reflexivity]|split; [apply sfits_nil|left; reflexivity]].
   unfold Table.table_widths, Table.target_width in Ew.
   destruct (Table.o_width (tb_o t)) eqn:Eow; [discriminate|].
-  destruct (Table.o_minw (tb_o t)) eqn:Eom; [discriminate|].
   assert (Hcne : cols <> []).
   { intros Hc. rewrite Hc in Hlen. destruct (tb_cols t); [discriminate|discriminate]. }
   assert (Hp : pad_ok (tb_o t)).
   { unfold pad_ok. unfold nonneg4 in Hpad. destruct (Table.o_pad (tb_o t)) as [[[a b] c] d]. lia. }
-  destruct (calc_widths_bound (tb_o t) cols (W - Table.extra_width (tb_o t) (length cols)) ws Eom Hcne
+  destruct (calc_widths_bound_minw (tb_o t) cols (W - Table.extra_width (tb_o t) (length cols)) ws Hcne
               (table_tcols_free cf t rows Hcols) Hp Ew) as [L1 [L2 L3]].
   assert (Hbx : box_agrees (tb_o t) (tb_boxc t)).
   { split.
